@@ -5,6 +5,12 @@ ALL = ["C%02d" % i for i in range(1, 21)]
 
 CHECKS = [
     {
+        "property_id": "C18",
+        "text": "Coq theorems locate exactly where the YSON text path (Marshal -> Unmarshal) is the identity (texts without constructor tokens / ')', Long up to 2^53) and refute it elsewhere; the model of the rewriting and of the float64 parse is compared with yson.Unmarshal. Every reachable document of generated histories and generated literals goes through the value path, the text path and a stability check; revisions are created/restored and documents compacted and rebuilt on a real server.",
+        "note": "PARTIAL: the value path has no Coq model. Known findings P9 (text path on unsafe literals) and P39 (dedup counter registers are not carried by operations: compaction and revision restore reset counted dedup counters) are attributed by signature.",
+        "technique": "Coq proof (text-path rewriting and float64 model, with refutations) + differential round trips + real-server revision/compaction runs",
+    },
+    {
         "property_id": "C09",
         "text": "Coq theorems for the byte-level codecs (version vector: round trip, truncation rejected, work bounded by input; int64; snapshot header) and for the ticket-shape table of operations (accepted => every dereferenced ticket present). Losslessness of the protobuf conversions is decided differentially: every pack, stored change and snapshot of generated two-author histories goes through each encoding and the replicas are compared (content, garbage, canonical structure); a structure-aware hostile stream is decoded AND executed under recover/timeout/memory limit.",
         "note": "PARTIAL proof (no Coq model of to_pb/from_pb/to_bytes/from_bytes). Several genuine defects were repaired (P18, P36, P37, P38); known findings P32a/P32b/P33/P34 are attributed by signature.",
